@@ -182,8 +182,6 @@ def gray_reasons(case):
         g.append(NAMES_NO_BS)
         if o["names"] is not None and S[2][2] is not None and list(o["names"]) != list(S[2][2]) and not o["inplace"]:
             g.append(NAMES_CONFLICT)
-    if out is not None and any(e[0] == "T" for _, e in walk(S)) and not o["leaf_nont"]:
-        g.append("non-tensor entries with out=")
     if out is not None and out_kind_conflict(S, out):
         g.append("out= holds another kind of entry than self under the same key")
     if out is not None and (out[2][2] is not None or S[2][2] is not None) and out[2][2] != S[2][2]:
